@@ -28,14 +28,27 @@ KfC03(c) ==
 Faithful(c, ast) ==
   /\ \A i \in DOMAIN c.probes : Q!WellTyped(ast, Row(c, c.probes[i]))
   /\ \A i \in DOMAIN c.probes : Q!EvalSql(ast, Row(c, c.probes[i])) = Sem!EvalRef(c.ref, c.probes[i])
+RECURSIVE NumKeys(_)
+NumKeys(s) == CASE s.k = "bool"    -> UNION {NumKeys(s.args[i]) : i \in DOMAIN s.args}
+                [] s.k = "cmp"     -> NumKeys(s.l) \cup NumKeys(s.r)
+                [] s.k = "between" -> NumKeys(s.x) \cup NumKeys(s.lo) \cup NumKeys(s.hi)
+                [] s.k = "in"      -> NumKeys(s.x) \cup UNION {NumKeys(s.items[i]) : i \in DOMAIN s.items}
+                [] s.k = "const" /\ s.ty # "str" -> {s.key}
+                [] OTHER -> {}
+\* every integer of the query appears in the SQL as exactly that number
+IntsPreserved(c) == \A i \in DOMAIN c.vals : c.vals[i].ty = "int" => c.vals[i].key \in NumKeys(c.inline.read.ast)
 C03(c) ==
+  IF c.form = "big" THEN
+     (IF c.inline.out = "ok" /\ c.inline.read.pg_ok /\ c.inline.read.frame_ok /\ IntsPreserved(c) THEN <<>>
+      ELSE <<Fail("C03", c, "an integer of the query is not that number in the inline SQL", "none")>>)
+  ELSE
   IF c.inline.out # "ok" THEN <<Fail("C03", c, "ToPostgres failed on a filterable query", KfC03(c))>>
   ELSE IF ~(c.inline.read.pg_ok /\ c.inline.read.frame_ok) THEN <<Fail("C03", c, "PostgreSQL does not read the text as one WHERE expression", "none")>>
   ELSE IF Faithful(c, c.inline.read.ast) THEN <<>>
   ELSE <<Fail("C03", c, "inline SQL selects other rows than the query means", KfC03(c))>>
 
 \* ---- C04: parameterized agrees with inline ------------------------------------------------------------
-SameParam(p, v) == p.ty = v.ty /\ (IF v.ty = "str" THEN p.codes = v.codes ELSE p.exact /\ p.n = v.n)
+SameParam(p, v) == p.ty = v.ty /\ (IF v.ty = "str" THEN p.codes = v.codes ELSE IF p.exact THEN p.n = v.n ELSE p.key = v.key)
 ParamsAreValues(c) == Len(c.param.params) = Len(c.vals) /\ \A i \in DOMAIN c.vals : SameParam(c.param.params[i], c.vals[i])
 Equivalent(c) ==
   LET sub == Q!Subst(c.param.read.ast, c.param.params) IN
@@ -61,7 +74,10 @@ C04adv(c) ==
         ELSE <<Fail("C04", c, "substituting the parameters does not give the inline predicate",
                     IF KF!KF_C04_MixedKindRange(c.inline.read.ast, c.param.read.ast, c.param.params) THEN "C04-mixed-kind-range" ELSE "none")>>)
 C04(c) ==
-  IF c.kind = "adv" THEN C04adv(c) ELSE
+  IF c.kind = "adv" \/ c.form = "big" THEN
+     C04adv(c) \o (IF c.kind = "adv" \/ c.inline.out # "ok" \/ c.param.out # "ok" \/ ParamsAreValues(c) THEN <<>>
+                   ELSE <<Fail("C04", c, "the parameters are not the query's values in order with their kinds", "none")>>)
+  ELSE
   IF c.inline.out # "ok" THEN <<>>
   ELSE IF c.param.out # "ok" THEN <<Fail("C04", c, "ToPostgres succeeds but ToParameterizedPostgres does not", "none")>>
   ELSE (IF c.param.read.pg_ok /\ c.param.read.nplace = Len(c.param.params) /\ Q!ParamsOf(c.param.read.ast) = [i \in 1..Len(c.param.params) |-> i]
